@@ -560,6 +560,16 @@ pub fn diff_models(expected: &Model, actual: &Model) -> Vec<String> {
     out
 }
 
+/// ids on which two models differ
+pub fn diff_ids(a: &Model, b: &Model) -> BTreeSet<u64> {
+    a.docs
+        .keys()
+        .chain(b.docs.keys())
+        .copied()
+        .filter(|k| a.docs.get(k) != b.docs.get(k))
+        .collect()
+}
+
 /// Shape invariants (S) of a cold-tier backend at a quiescent point, public API only.
 pub fn shape_invariants(b: &HnswBackend) -> Vec<String> {
     use kyrodb_engine::proto::{metadata_filter::FilterType, AndFilter, MetadataFilter};
